@@ -1,3 +1,4 @@
+import Firebolt.Properties.TransBase
 import Firebolt.Properties.C01
 import Firebolt.Properties.ExecFlow
 import Firebolt.Properties.ExecNet
@@ -84,6 +85,25 @@ theorem source_invokeProcessorFanout : GeneratedSrc.invokeProcessorFanout = Expe
 
 /-! ### influence closure: the pinned functions, and every function of the repository that writes a struct field or package
 variable they read, are unchanged (digests regenerated from /repo on every run; a difference names the functions) -/
+/-! ### The code itself, translated (`Generated/Trans.lean`, rewritten from /repo on every run by extractor/translate.go)
+
+The `translated_*` theorems are about MiniGo terms the translator produced from the current Go source: for every
+environment the translated fragment does what the hand-written model function says.  They are semantic obligations —
+a rewrite that preserves the behaviour keeps them provable, a changed comparison, bound or argument does not. -/
+section Translated
+open Firebolt.MiniGo Firebolt.TransBase
+
+/-- a failed event reaches handleFailure and nothing else: no child delivery, no success or filter count -/
+theorem translated_failure_only_to_handler (σ : Env) (h : σ "err" ≠ 0) :
+    obs Trans.handleResult σ = ⟨[("nc.handleFailure", [σ "event", σ "err"])], none, false⟩ := by
+  rw [C01.translated_handleResult]; simp [h]
+
+/-- and handleFailure is reached by nothing but a failure -/
+theorem translated_handler_only_for_failures (σ : Env) (h : σ "err" = 0) :
+    ∀ a, ("nc.handleFailure", a) ∉ (obs Trans.handleResult σ).calls := by
+  rw [C01.translated_handleResult]; by_cases h2 : σ "len(result)" = 0 <;> simp [h, h2]
+end Translated
+
 theorem closure_unchanged : GeneratedClo.C02 = ExpectedClo.C02 := by rfl
 
 end Firebolt.C02
